@@ -50,7 +50,7 @@ KNOWN = {
     "F35": ("partial-type-pattern", {"ast", "bc"}),         # `((j: 't))` rendered as `(j: 't)` = a different pattern
     "F36": ("spawn-rich-function", {"ast", "bc", "reparse"}),   # `@#<'t>'int -> 'bin {..}` rendered with the `@type {..}` sugar
     "F37": ("wrap-binding", {"ast", "bc"}),                 # wrap_breaking_body braces a binding/matching chain
-    "F38": (("comment-and-branches", "comment-near-arrow"), IK),                    # a comment inside a multi-branch block (e.g. next to `=>`): the 2nd format wraps the consequence in braces / re-joins
+    "F38": (("comment-in-arrow-branch", "comment-near-arrow"), IK),                    # a comment inside a `cond => consequence` branch (in the guard, next to `=>`, in or trailing the consequence) is attached differently by the 2nd format (wraps the consequence in braces / re-joins)
     "F39": ("spawn-container", {"panic"}),                  # `@[..]`, `@"s"`: format_program panics (format.rs:432 unreachable!)
     "F40": ("primitive-named-identifier", {"ast", "bc"}),   # `(<'int>)c`: a type-parameter pattern loses its angle brackets -> `('int)c` (primitive, not the parameter)
     "F41": ("toplevel-type-binding", {"reparse", "ast", "bc"}),  # a statement `'d<'t> = <chain>` (type pattern binding) is re-read as a type alias
